@@ -14,9 +14,12 @@ biomass_accumulation, HIref_current_day, HIadj_*, the yield lines of run_single_
 coq/theories/gen/ProcsSrc.v (proofs: theories/proofs/ProcsSrcOK.v); see the tables PROCS, EXTERNALS, DIV_RAISES,
 ROUND_OPS below for what had to be decided by hand and is therefore written down explicitly.
 
+Phase 3: harvest_index and canopy_cover go to a third file, coq/theories/gen/CropSrc.v (proofs:
+theories/proofs/CropSrcOK.v); they call the definitions of the two other files (tables CROPS, OPTJOIN, RECORD_CLASSES).
+
 usage: gen_kernels.py [--out DIR] [--only fn,fn]      env VERIF_REPO=<root of the source tree> (default /repo)
-       writes KernelsSrc.v and ProcsSrc.v (nothing unless both translate); from Python: generate(only) / generate_procs(only)
-       -> (text, statistics), TranslatorError on a refusal
+       writes KernelsSrc.v, ProcsSrc.v and CropSrc.v (nothing unless all translate); from Python: generate(only) /
+       generate_procs(only) / generate_crop(only) -> (text, statistics), TranslatorError on a refusal
 self-test: harness/tools/tests_gen_kernels.py
 
 Supported subset (everything else is refused)
@@ -40,6 +43,16 @@ Supported subset (everything else is refused)
       `t1, ..., tn = g(args)` for g in EXTERNALS: the results read become parameters, the argument texts are recorded
       Obj.attr = e : the attribute becomes a slot (see PROCS); `return Obj` returns the slots; `X = Obj` is an alias
       an operation that can raise inside an operand that and/or may skip is refused
+  Phase 3 additions
+      `x = C()` for a class C of RECORD_CLASSES imported from aquacrop/entities: a local record; `x.a = e`, `x.a` (a read
+        of an attribute this function has not assigned is refused); rebinding x drops the record
+      `t1, ..., tn = (e1, ..., en)`; targets of a call / external call may be names, `_`, slots, record attributes
+      a call `g(args)` of an earlier translated function may pass objects (parameter objects or local records): the
+        callee's attribute reads are handed over one by one, and become attribute parameters of the caller; arrays
+        (Crop.p_up: kind A4) are passed element-wise; callees may live in the other generated files
+      OPTJOIN functions: an `if` whose branches can raise (None leaves, option-valued callees) is still joined:
+        `match (if c then .. Some (x, y) .. else .. None ..) with None => None | Some (x, y) => .. end`
+      round(<int>) is the identity; `**` on a base that may be the int 0 / 1 (exact either way) is accepted
   Blocks (see BLOCKS below): a run of consecutive top-level statements of a larger function, delimited by its first
   `if <test>:` and its only store to a given attribute, is translated like a function body whose parameters are the
   names it reads and the enclosing function binds earlier; assumptions a block needs are printed in its header.
@@ -178,6 +191,41 @@ DIV_RAISES = {
 # value is the identity and needs no entry; anything else that is not listed here is refused.
 ROUND_OPS = {
 }
+# ------------------------------------------------------------------------------------------------------------------
+#  phase 3: the two long loop-free crop processes -> coq/theories/gen/CropSrc.v.  They call definitions of the two
+#  other generated files (`g(args)` / `t1, ..., tn = g(args)` with g translated earlier: objects are passed by handing
+#  over the attributes the callee reads, arrays element-wise) and use small local record objects (`x = Ksw()`,
+#  `x.a = e`, `x.a`).  In these functions an `if` whose branches can raise is still joined, through an option:
+#  `match (if c then .. Some (x, y) .. None ..) with None => None | Some (x, y) => .. end` (OPTJOIN).
+# ------------------------------------------------------------------------------------------------------------------
+CROP_FILE = "CropSrc.v"
+CROPS = [
+    ("aquacrop/solution/harvest_index.py", "harvest_index"),
+    ("aquacrop/solution/canopy_cover.py", "canopy_cover"),
+]
+OPTJOIN = {"harvest_index", "canopy_cover"}
+RECORD_CLASSES = {"TAW", "Dr", "Ksw", "Kst"}      # classes of aquacrop/entities whose instances are used as plain records
+for _f in ("harvest_index", "canopy_cover"):
+    KINDS.update({
+        (_f, "prof"): "X", (_f, "growing_season"): "B",
+        (_f, "InitCond.th"): "X",
+        (_f, "Crop.p_up"): "A4", (_f, "Crop.p_lo"): "A4", (_f, "Crop.fshape_w"): "A3", (_f, "Crop.ETadj"): "Z",
+        (_f, "InitCond.dap"): "Z", (_f, "InitCond.delayed_cds"): "Z",
+    })
+KINDS.update({
+    ("harvest_index", "Crop.CropType"): "Z",
+    ("harvest_index", "Crop.PolHeatStress"): "Z", ("harvest_index", "Crop.PolColdStress"): "Z",
+    ("harvest_index", "InitCond.pre_adj"): "B", ("harvest_index", "InitCond.yield_form"): "B",
+    ("canopy_cover", "Crop.CalendarType"): "Z",
+    ("canopy_cover", "InitCond.protected_seed"): "B", ("canopy_cover", "InitCond.crop_dead"): "B",
+    ("canopy_cover", "InitCond.premat_senes"): "B",
+})
+EXTERNALS[("harvest_index", "root_zone_water")] = 11
+EXTERNALS[("canopy_cover", "root_zone_water")] = 11
+# round(tCCadj): tCCadj is the Python int dap - delayed_cds (calendar days: round is the identity, no entry needed) or
+# the np.float64 gdd_cum - delayed_gdds (thermal time): Python round of a float -> int, half even = nrint, as
+# Canopy.v models this very line (cc_outside)
+ROUND_OPS[("canopy_cover", "round(tCCadj)")] = "nrint"
 MAX_ARRAY = 4
 EXACT = 2 ** 53          # Python ints below this bound are exact doubles
 RESERVED = set("""F N Type Prop Set if then else let in fun match with end as return forall exists fix cofix struct where at
@@ -210,6 +258,8 @@ class Ctx:
         self.calls = []            # (callee, [argument source texts])
         self.uses_trig = False
         self.calls_opt = False
+        self.optjoin = fname in OPTJOIN
+        self.entities = set()      # names imported from aquacrop/entities
 
 
 def bad(ctx, node, what):
@@ -350,6 +400,9 @@ def env_del(env, name):
     if isinstance(b, tuple) and b and b[0] == "arr":
         for i in range(b[1]):
             env.pop((name, i), None)
+    if isinstance(b, tuple) and b and b[0] == "obj":
+        for key in [k for k in env if isinstance(k, str) and k.startswith(name + ".")]:
+            env.pop(key)
 
 
 def base_of(key):
@@ -471,6 +524,8 @@ def ex(ctx, node, env):
             b = env[n]
             if b is POISON:
                 raise TranslatorError("%s:%d: internal error: read of %s after a join that dropped it" % (ctx.rel, node.lineno, n))
+            if isinstance(b, tuple) and b[0] == "obj":
+                bad(ctx, node, "use of the record object %s as a value" % n)
             if isinstance(b, tuple):      # ("arr", k)
                 elems = []
                 for i in range(b[1]):
@@ -490,6 +545,13 @@ def ex(ctx, node, env):
             ctx.uses_trig = True
             return V("spi", 0, "F")
         root = ctx.alias.get(node.value.id, node.value.id) if isinstance(node.value, ast.Name) else None
+        if root is not None and isinstance(env.get(root), tuple) and env[root][0] == "obj" and isinstance(node.ctx, ast.Load):
+            b = env.get("%s.%s" % (root, node.attr))
+            if b is None or b is POISON:
+                bad(ctx, node, "read of the attribute %s.%s that this function has not assigned on this path" % (root, node.attr))
+            return b
+        if root is not None and root in ctx.locals and root not in ctx.params and root not in env and isinstance(node.ctx, ast.Load):
+            raise UnboundRead(root, node.lineno)
         if root is not None and ctx.params.get(root) == "O" and isinstance(node.ctx, ast.Load):
             key = "%s.%s" % (root, node.attr)
             if key in ctx.slots:
@@ -502,6 +564,10 @@ def ex(ctx, node, env):
                 return V("#1", 0, "F", ib=1, const=1)
             if kind == "OL":
                 bad(ctx, node, "use of the object list %s other than `x = %s[i]`" % (key, key))
+            if kind.startswith("A"):
+                return A([V("%s_%d" % (cn, i), 0, "F") for i in range(int(kind[1:]))])
+            if kind == "X":
+                bad(ctx, node, "use of the opaque attribute %s other than as an argument of an external call" % key)
             return V(cn, 0, kind)
         bad(ctx, node, "attribute access %s" % ast.unparse(node))
     if isinstance(node, ast.UnaryOp):
@@ -531,7 +597,7 @@ def ex(ctx, node, env):
 
             def pw(x, _):
                 need_F(ctx, node, x, "**")
-                if x.ib is not None:
+                if x.ib is not None and x.ib > 1:
                     bad(ctx, node, "** on a possibly-integer base")
                 return V("npow num_ops %s %s" % (par(x, 0), "(%s)" % et if neg else et), 10, "F")
             return lift2(ctx, node, pw, a, a) if isinstance(a, A) else pw(a, None)
@@ -689,7 +755,7 @@ def call(ctx, node, env):
             return V(a.t, a.prec, "F")
         if f.id in ("int", "round") and 1 <= len(args) <= 2:
             a = ex(ctx, args[0], env)
-            if f.id == "int" and len(args) == 1 and zable(a):
+            if len(args) == 1 and zable(a):
                 return to_Z(a)
             opn = ROUND_OPS.get((ctx.fname, ast.unparse(node)))
             if opn is None or isinstance(a, A) or a.kind != "F":
@@ -732,6 +798,10 @@ def live_stmt(s, live):
         t = s.targets[0]
         if isinstance(t, ast.Name):
             return (live - {t.id}) | loads(s.value)
+        if isinstance(t, ast.Tuple):
+            kill = {e.id for e in t.elts if isinstance(e, ast.Name)}
+            keep = {n.id for e in t.elts if not isinstance(e, ast.Name) for n in ast.walk(e) if isinstance(n, ast.Name)}
+            return (live - kill) | keep | loads(s.value)
         return live | loads(t) | loads(s.value) | {n.id for n in ast.walk(t) if isinstance(n, ast.Name)}
     if isinstance(s, ast.AugAssign):
         return live | loads(s.value) | {n.id for n in ast.walk(s.target) if isinstance(n, ast.Name)}
@@ -754,8 +824,16 @@ def live_stmt(s, live):
 #  statement trees.  ("let", [names], rhs, body) rhs = text | tree with "val" leaves; ("if", c, a, b);
 #  ("ret", text) ; ("unb", name, line) ; ("val", text) ; ("hole",) ; ("bind", [names], calltext, body)
 # ------------------------------------------------------------------------------------------------------------------
-def leaves(t, acc):
+def leaves(t, acc, deep=False):
     k = t[0]
+    if deep and k == "bind" and isinstance(t[2][0], tuple):
+        leaves(t[2][0], acc, True)
+    if deep and k == "let" and isinstance(t[2], tuple):
+        leaves(t[2], acc, True)
+    if deep and k in ("let", "bind", "if"):
+        for sub in (t[3:] if k != "if" else t[2:]):
+            leaves(sub, acc, True)
+        return acc
     if k in ("let", "bind"):
         leaves(t[3], acc)
     elif k == "if":
@@ -804,7 +882,8 @@ def simplify(t):
             return rhs if isinstance(rhs, tuple) else ("val", rhs)
         return ("let", t[1], rhs, body)
     if k == "bind":
-        return ("bind", t[1], t[2], simplify(t[3]))
+        scrut = (simplify(t[2][0]), t[2][1]) if isinstance(t[2][0], tuple) else t[2]
+        return ("bind", t[1], scrut, simplify(t[3]))
     if k == "if":
         a, b = simplify(t[2]), simplify(t[3])
         if a[0] in ("unb", "exc") and b[0] in ("unb", "exc"):
@@ -815,7 +894,9 @@ def simplify(t):
 
 def size(t):
     k = t[0]
-    if k in ("let", "bind"):
+    if k == "bind":
+        return 1 + (size(t[2][0]) if isinstance(t[2][0], tuple) else 0) + size(t[3])
+    if k == "let":
         return 1 + (size(t[2]) if isinstance(t[2], tuple) else 0) + size(t[3])
     if k == "if":
         return 1 + size(t[2]) + size(t[3])
@@ -838,6 +919,13 @@ def render(t, opt, ind):
         else:
             lines = ["%slet %s := %s in" % (pad, pat, t[2])]
         return lines + render(t[3], opt, ind)
+    if k == "bind" and isinstance(t[2][0], tuple):      # option-join: the scrutinee is a tree with Some/None leaves
+        pat = "_" if not t[1] else (t[1][0] if len(t[1]) == 1 else "(" + ", ".join(t[1]) + ")")
+        sub = render(t[2][0], True, ind + 4)
+        sub[0] = " " * (ind + 3) + "(" + sub[0].lstrip()
+        sub[-1] += ")"
+        return (["%smatch" % pad] + sub + ["%swith" % pad, "%s| None => None" % pad,
+                "%s| Some %s =>" % (pad, pat)] + render(t[3], opt, ind + 4) + ["%send" % pad])
     if k == "bind":
         pat = t[1][0] if len(t[1]) == 1 else "(" + ", ".join(t[1]) + ")"
         if t[2][1]:      # callee returns option
@@ -924,8 +1012,11 @@ def wrap_pre(pre, t):
 
 
 def wrap_lets(lets, body):
-    for names, rhs in reversed(lets):
-        body = ("let", names, rhs, body)
+    for item in reversed(lets):
+        if len(item) == 3:       # option-join
+            body = ("bind", item[0], (item[1], True), body)
+        else:
+            body = ("let", item[0], item[1], body)
     return body
 
 
@@ -1006,15 +1097,28 @@ def stmt_inner(ctx, s, rest, env, k, live_out):
         env = dict(env)
         if id(s) in ctx.ext_stmts:
             for a in value.args:
-                if not (isinstance(a, ast.Name) and ctx.params.get(a.id) == "X"):
+                opaque = (isinstance(a, ast.Name) and ctx.params.get(a.id) == "X") or (
+                    isinstance(a, ast.Attribute) and isinstance(a.value, ast.Name)
+                    and ctx.attr_params.get("%s.%s" % (ctx.alias.get(a.value.id, a.value.id), a.attr), (0, 0))[1] == "X")
+                if not opaque:
                     v = ex(ctx, a, env)          # definedness of the argument on this path
                     if isinstance(v, A) or v.kind not in ("F", "Z"):
                         bad(ctx, a, "argument of an external call")
             for t in tgt.elts:
-                env_del(env, t.id)
-                cn = ctx.ext_stmts[id(s)].get(t.id)
-                if cn is not None:
-                    env[t.id] = V(cn, 0, "F")
+                if isinstance(t, ast.Name):
+                    if t.id == "_":
+                        continue
+                    env_del(env, t.id)
+                    cn = ctx.ext_stmts[id(s)].get(t.id)
+                    if cn is not None:
+                        env[t.id] = V(cn, 0, "F")
+                else:
+                    root = t.value.id
+                    if root not in env and root in ctx.locals:
+                        raise UnboundRead(root, s.lineno)
+                    if not (isinstance(env.get(root), tuple) and env[root][0] == "obj"):
+                        bad(ctx, s, "result of an external call stored into %s" % ast.unparse(t))
+                    env["%s.%s" % (root, t.attr)] = V(ctx.ext_stmts[id(s)]["%s.%s" % (root, t.attr)], 0, "F")
             return block(ctx, rest, env, k, live_out)
         if id(s) in ctx.rebinds:
             i = const_int(ctx, s, ex(ctx, value.slice, env), "list index")
@@ -1029,37 +1133,24 @@ def stmt_inner(ctx, s, rest, env, k, live_out):
         if isinstance(value, ast.Call) and isinstance(value.func, ast.Name) and value.func.id in ctx.translated \
                 and value.func.id not in ctx.locals:
             return call_stmt(ctx, s, tgt, value, rest, env, k, live_out)
+        # x = C(): a fresh record object of one of the entity classes
+        if (isinstance(value, ast.Call) and isinstance(value.func, ast.Name) and value.func.id in RECORD_CLASSES
+                and value.func.id in ctx.entities and value.func.id not in ctx.locals and not value.args and not value.keywords
+                and isinstance(tgt, ast.Name) and tgt.id not in ctx.params):
+            env_del(env, tgt.id)
+            env[tgt.id] = ("obj", value.func.id)
+            return block(ctx, rest, env, k, live_out)
+        # t1, ..., tn = (e1, ..., en): all right-hand sides first
+        if isinstance(tgt, ast.Tuple) and isinstance(value, ast.Tuple):
+            if len(tgt.elts) != len(value.elts) or any(isinstance(e, ast.Starred) for e in tgt.elts + value.elts):
+                bad(ctx, s, "tuple assignment of different lengths")
+            vals = [ex(ctx, e, env) for e in value.elts]
+            lets = []
+            for t, v in zip(tgt.elts, vals):
+                lets += assign_value(ctx, s, env, t, v)
+            return wrap_lets(lets, block(ctx, rest, env, k, live_out))
         val = ex(ctx, value, env)
-        if isinstance(tgt, ast.Attribute) and isinstance(tgt.value, ast.Name) \
-                and "%s.%s" % (ctx.alias.get(tgt.value.id, tgt.value.id), tgt.attr) in ctx.slots:
-            key = "%s.%s" % (ctx.alias.get(tgt.value.id, tgt.value.id), tgt.attr)
-            val = coerce(ctx, s, val, ctx.slots[key], "attribute " + key)
-            cn = fresh(ctx, key.replace(".", "_"))
-            lets = [([cn], vtext(val))]
-            env[key] = V(cn, 0, val.kind, val.ib, val.const)
-        elif isinstance(tgt, ast.Name):
-            if tgt.id in ctx.params and ctx.params[tgt.id] not in ("F", "Z", "B"):
-                bad(ctx, s, "assignment to the non-number parameter %s" % tgt.id)
-            if tgt.id in ctx.params and ctx.params[tgt.id] != "F":
-                val = coerce(ctx, s, val, ctx.params[tgt.id], "parameter " + tgt.id)
-            lets = bind_value(ctx, env, tgt.id, val)
-            if lets is None:
-                bad(ctx, s, "assignment of a non-number to %s" % tgt.id)
-        elif isinstance(tgt, ast.Subscript) and isinstance(tgt.value, ast.Name):
-            a = env.get(tgt.value.id)
-            if a is None and tgt.value.id in ctx.locals:
-                raise UnboundRead(tgt.value.id, s.lineno)
-            if not (isinstance(a, tuple) and a[0] == "arr"):
-                bad(ctx, s, "subscript store into a non-array")
-            i = const_int(ctx, s, ex(ctx, tgt.slice, env), "array index")
-            if not 0 <= i < a[1]:
-                bad(ctx, s, "array index %d out of range" % i)
-            need_F(ctx, s, val, "array element store")
-            cn = fresh(ctx, "%s_%d" % (tgt.value.id, i))
-            lets = [([cn], val.t)]
-            env[(tgt.value.id, i)] = V(cn, 0, "F", val.ib, None)
-        else:
-            bad(ctx, s, "assignment target %s" % type(tgt).__name__)
+        lets = assign_value(ctx, s, env, tgt, val)
         return wrap_lets(lets, block(ctx, rest, env, k, live_out))
     if isinstance(s, ast.For):
         if s.orelse:
@@ -1129,19 +1220,25 @@ def straight(ctx, stmts, env, live_out):
         return ("hole",)
     t = block(ctx, stmts, dict(env), capture, live_out)
     lv = leaves(t, [])
+    if ctx.optjoin:
+        # branches that can raise are joined through an option: exactly one ordinary end, any number of None leaves
+        if len(got) != 1 or sum(1 for l in lv if l[0] == "hole") != 1 or any(l[0] not in ("hole", "exc", "unb") for l in lv):
+            raise NotJoinable()
+        return t, got[0], (len(lv) != 1 or has_opt_bind(t))
     if len(got) != 1 or len(lv) != 1 or lv[0][0] != "hole" or has_opt_bind(t):
         raise NotJoinable()
-    return t, got[0]
+    return t, got[0], False
 
 
 def join(ctx, c, s, env, live_after):
-    t1, e1 = straight(ctx, s.body, env, live_after)
-    t2, e2 = straight(ctx, s.orelse, env, live_after)
+    t1, e1, p1 = straight(ctx, s.body, env, live_after)
+    t2, e2, p2 = straight(ctx, s.orelse, env, live_after)
     env2 = {}
     changed = []
     for key in list(e1.keys()) + [k for k in e2.keys() if k not in e1]:
         b1, b2 = e1.get(key), e2.get(key)
-        is_live = base_of(key) in live_after or (isinstance(key, str) and "." in key)
+        is_live = base_of(key) in live_after or (isinstance(key, str) and "." in key and (
+            ctx.params.get(key.split(".")[0]) == "O" or key.split(".")[0] in live_after))
         if b1 is None or b2 is None or b1 is POISON or b2 is POISON:
             if is_live:
                 raise NotJoinable()
@@ -1167,7 +1264,7 @@ def join(ctx, c, s, env, live_after):
     for key in list(env2.keys()):
         if not isinstance(key, str) and not (isinstance(env2.get(key[0]), tuple)):
             env2[key] = POISON
-    if not changed:
+    if not changed and not (p1 or p2):
         return [], env2
     names = []
     for key in changed:
@@ -1176,10 +1273,62 @@ def join(ctx, c, s, env, live_after):
         names.append(cn)
         ib = None if (b1.ib is None and b2.ib is None) else max(b1.ib or 0, b2.ib or 0)
         env2[key] = V(cn, 0, b1.kind, ib, b1.const if (b1.const is not None and b1.const == b2.const and isinstance(key, str)) else None)
+    if p1 or p2:
+        ctx.calls_opt = True
+        v1 = ("ret", tuple_text([e1[k].t for k in changed]) if changed else "tt")
+        v2 = ("ret", tuple_text([e2[k].t for k in changed]) if changed else "tt")
+        return [(names, ("if", c.t, subst_hole(t1, v1), subst_hole(t2, v2)), "opt")], env2
     v1 = ("val", tuple_text([e1[k].t for k in changed]))
     v2 = ("val", tuple_text([e2[k].t for k in changed]))
     rhs = ("if", c.t, subst_hole(t1, v1), subst_hole(t2, v2))
     return [(names, rhs)], env2
+
+
+def assign_value(ctx, s, env, tgt, val):
+    """store an evaluated value into a name / slot / record attribute / array element; -> lets"""
+    if isinstance(tgt, ast.Attribute) and isinstance(tgt.value, ast.Name) \
+            and "%s.%s" % (ctx.alias.get(tgt.value.id, tgt.value.id), tgt.attr) in ctx.slots:
+        key = "%s.%s" % (ctx.alias.get(tgt.value.id, tgt.value.id), tgt.attr)
+        val = coerce(ctx, s, val, ctx.slots[key], "attribute " + key)
+        cn = fresh(ctx, key.replace(".", "_"))
+        lets = [([cn], vtext(val))]
+        env[key] = V(cn, 0, val.kind, val.ib, val.const)
+    elif isinstance(tgt, ast.Attribute) and isinstance(tgt.value, ast.Name) and tgt.value.id in ctx.locals \
+            and tgt.value.id not in ctx.params and tgt.value.id not in ctx.alias:
+        root = tgt.value.id
+        if root not in env:
+            raise UnboundRead(root, s.lineno)
+        if not (isinstance(env[root], tuple) and env[root][0] == "obj"):
+            bad(ctx, s, "attribute store into %s, which is not a record object" % root)
+        if isinstance(val, A) or val.kind not in ("F", "Z", "B"):
+            bad(ctx, s, "store of a non-number into %s.%s" % (root, tgt.attr))
+        cn = fresh(ctx, "%s_%s" % (root, tgt.attr))
+        lets = [([cn], vtext(val))]
+        env["%s.%s" % (root, tgt.attr)] = V(cn, 0, val.kind, val.ib, val.const)
+    elif isinstance(tgt, ast.Name):
+        if tgt.id in ctx.params and ctx.params[tgt.id] not in ("F", "Z", "B"):
+            bad(ctx, s, "assignment to the non-number parameter %s" % tgt.id)
+        if tgt.id in ctx.params and ctx.params[tgt.id] != "F":
+            val = coerce(ctx, s, val, ctx.params[tgt.id], "parameter " + tgt.id)
+        lets = bind_value(ctx, env, tgt.id, val)
+        if lets is None:
+            bad(ctx, s, "assignment of a non-number to %s" % tgt.id)
+    elif isinstance(tgt, ast.Subscript) and isinstance(tgt.value, ast.Name):
+        a = env.get(tgt.value.id)
+        if a is None and tgt.value.id in ctx.locals:
+            raise UnboundRead(tgt.value.id, s.lineno)
+        if not (isinstance(a, tuple) and a[0] == "arr"):
+            bad(ctx, s, "subscript store into a non-array")
+        i = const_int(ctx, s, ex(ctx, tgt.slice, env), "array index")
+        if not 0 <= i < a[1]:
+            bad(ctx, s, "array index %d out of range" % i)
+        need_F(ctx, s, val, "array element store")
+        cn = fresh(ctx, "%s_%d" % (tgt.value.id, i))
+        lets = [([cn], val.t)]
+        env[(tgt.value.id, i)] = V(cn, 0, "F", val.ib, None)
+    else:
+        bad(ctx, s, "assignment target %s" % type(tgt).__name__)
+    return lets
 
 
 def call_stmt(ctx, s, tgt, value, rest, env, k, live_out):
@@ -1188,36 +1337,76 @@ def call_stmt(ctx, s, tgt, value, rest, env, k, live_out):
         bad(ctx, s, "call of %s that is not imported by `from .%s import %s`" % ((value.func.id,) * 3))
     if value.keywords or len(value.args) != len(info["pyparams"]):
         bad(ctx, s, "call of %s with other than its positional parameters" % value.func.id)
+    if not info.get("callable", True):
+        bad(ctx, s, "call of %s, which has external calls / written attributes / is a block" % value.func.id)
     args = []
+
+    def arg_text(v, kind, what):
+        if isinstance(v, A) or kind.startswith("A"):
+            if not isinstance(v, A) or not kind.startswith("A") or len(v.elems) != int(kind[1:]):
+                bad(ctx, s, "array argument of the wrong shape (%s)" % what)
+            return [par(e, 0) for e in v.elems]
+        if kind == "F" and v.kind == "Z":
+            v = to_F(v)
+        if kind == "Z" and zable(v):
+            return [zwrap(to_Z(v))]
+        if v.kind != kind:
+            bad(ctx, s, "argument of kind %s where %s is expected (%s)" % (v.kind, kind, what))
+        return [par(v, 0)]
     for (pn, kind), a in zip(info["pyparams"], value.args):
         if kind == "O":
-            bad(ctx, s, "call passing an object parameter")
-        v = ex(ctx, a, env)
-        if kind.startswith("A"):
-            if not isinstance(v, A) or len(v.elems) != int(kind[1:]):
-                bad(ctx, s, "array argument of the wrong shape")
-            args += [par(e, 0) for e in v.elems]
-        else:
-            if isinstance(v, A) or v.kind != kind:
-                bad(ctx, s, "argument of kind %s where %s is expected" % ("array" if isinstance(v, A) else v.kind, kind))
-            args.append(par(v, 0))
+            # an object is handed over as the attributes the callee reads
+            if not isinstance(a, ast.Name):
+                bad(ctx, s, "object argument that is not a name")
+            root = ctx.alias.get(a.id, a.id)
+            local = isinstance(env.get(root), tuple) and env[root][0] == "obj"
+            if not local and ctx.params.get(root) != "O":
+                if root in ctx.locals and root not in ctx.params and root not in env:
+                    raise UnboundRead(root, a.lineno)
+                bad(ctx, s, "object argument %s that is neither an object parameter nor a record object" % a.id)
+            for attr, k2 in info["objattrs"][pn]:
+                node = ast.copy_location(ast.Attribute(value=ast.copy_location(ast.Name(id=root, ctx=ast.Load()), a),
+                                                       attr=attr, ctx=ast.Load()), a)
+                args += arg_text(ex(ctx, node, env), k2, "%s.%s" % (a.id, attr))
+            continue
+        args += arg_text(ex(ctx, a, env), kind, pn)
     text = "%s_src %s" % (value.func.id, " ".join(args))
     if info["arity"] == 1:
-        if not isinstance(tgt, ast.Name):
-            bad(ctx, s, "call result stored into a non-name")
         targets = [tgt]
     else:
-        if not (isinstance(tgt, ast.Tuple) and len(tgt.elts) == info["arity"] and all(isinstance(e, ast.Name) for e in tgt.elts)):
-            bad(ctx, s, "call result not unpacked into %d names" % info["arity"])
+        if not (isinstance(tgt, ast.Tuple) and len(tgt.elts) == info["arity"]):
+            bad(ctx, s, "call result not unpacked into %d targets" % info["arity"])
         targets = tgt.elts
+    kinds = info.get("ret_kinds", ("F",) * info["arity"])
     names = []
-    for t in targets:
-        if t.id in ctx.params and ctx.params[t.id] != "F":
-            bad(ctx, s, "assignment to the non-number parameter %s" % t.id)
-        env_del(env, t.id)
-        cn = fresh(ctx, t.id)
-        names.append(cn)
-        env[t.id] = V(cn, 0, "F", None, None)
+    for t, rk in zip(targets, kinds):
+        if isinstance(t, ast.Name):
+            if t.id == "_":
+                names.append("_")
+                continue
+            if t.id in ctx.params and ctx.params[t.id] != rk:
+                bad(ctx, s, "assignment to the parameter %s of another kind" % t.id)
+            env_del(env, t.id)
+            cn = fresh(ctx, t.id)
+            names.append(cn)
+            env[t.id] = V(cn, 0, rk, None, None)
+        elif isinstance(t, ast.Attribute) and isinstance(t.value, ast.Name):
+            root = ctx.alias.get(t.value.id, t.value.id)
+            key = "%s.%s" % (root, t.attr)
+            if key in ctx.slots:
+                if ctx.slots[key] != rk:
+                    bad(ctx, s, "call result of kind %s stored into the slot %s of kind %s" % (rk, key, ctx.slots[key]))
+            elif isinstance(env.get(root), tuple) and env[root][0] == "obj":
+                pass
+            elif root in ctx.locals and root not in ctx.params and root not in env:
+                raise UnboundRead(root, s.lineno)
+            else:
+                bad(ctx, s, "call result stored into %s" % ast.unparse(t))
+            cn = fresh(ctx, key.replace(".", "_"))
+            names.append(cn)
+            env[key] = V(cn, 0, rk, None, None)
+        else:
+            bad(ctx, s, "call result stored into %s" % type(t).__name__)
     if info["opt"]:
         ctx.calls_opt = True
     return ("bind", names, (text, info["opt"]), block(ctx, rest, env, k, live_out))
@@ -1247,6 +1436,8 @@ def translate_function(rel, fname, text, strings, translated):
         elif isinstance(n, ast.ImportFrom):
             for a in n.names:
                 ctx.imported[a.asname or a.name] = a.name if (n.module or "").split(".")[-1] == a.name else "?"
+                if "entities" in (n.module or "").split(".") and a.asname is None:
+                    ctx.entities.add(a.name)
         elif isinstance(n, (ast.Assign, ast.AugAssign, ast.AnnAssign)):
             for x in ast.walk(n):
                 if isinstance(x, ast.Name) and isinstance(x.ctx, ast.Store):
@@ -1352,11 +1543,31 @@ def translate_function(rel, fname, text, strings, translated):
                 ctx.alias[x] = st.value.id
                 ctx.alias_stmts.add(id(st))
 
+    passed_bare = set()       # Name nodes that hand an object parameter over to a callee
+
     class Scan(ast.NodeVisitor):
         def visit_Attribute(self, n):
             if isinstance(n.value, ast.Name) and ctx.alias.get(n.value.id, n.value.id) in pynames:
                 attr_roots.append((ctx.alias.get(n.value.id, n.value.id), n.attr, n))
             self.generic_visit(n)
+
+        def visit_Call(self, n):
+            info = translated.get(n.func.id) if isinstance(n.func, ast.Name) and n.func.id not in ctx.locals else None
+            if info is None or n.keywords or len(n.args) != len(info["pyparams"]):
+                return self.generic_visit(n)
+            for (pn, kind), a in zip(info["pyparams"], n.args):
+                if kind == "O" and isinstance(a, ast.Name) and ctx.alias.get(a.id, a.id) in pynames:
+                    root = ctx.alias.get(a.id, a.id)
+                    passed_bare.add(id(a))
+                    for attr, k2 in info["objattrs"][pn]:
+                        node = ast.copy_location(ast.Attribute(value=a, attr=attr, ctx=ast.Load()), a)
+                        attr_roots.append((root, attr, node))
+                        callee_kinds.setdefault("%s.%s" % (root, attr), k2)
+                        synthetic.add(id(node))
+                else:
+                    self.visit(a)
+    callee_kinds = {}
+    synthetic = set()
     for st in body:
         Scan().visit(st)
     objs = {r for r, _, _ in attr_roots}
@@ -1384,8 +1595,8 @@ def translate_function(rel, fname, text, strings, translated):
                         and v.value.value.id in objs and v.value.value.id != p
                         and KINDS.get((fname, "%s.%s" % (v.value.value.id, v.value.attr))) == "OL"):
                     rebinds.append(n)
-        uses = sum(1 for n in ast.walk(scope) if isinstance(n, ast.Name) and n.id in family)
-        attrs = sum(1 for r, _, n in attr_roots if r == p)
+        uses = sum(1 for n in ast.walk(scope) if isinstance(n, ast.Name) and n.id in family and id(n) not in passed_bare)
+        attrs = sum(1 for r, _, n in attr_roots if r == p and id(n) not in synthetic)
         bare_ret = sum(1 for n in ast.walk(scope) if isinstance(n, ast.Name) and n.id in family and id(n) in returned_bare)
         nstores = sum(1 for n in ast.walk(scope) if isinstance(n, ast.Name) and n.id in family and isinstance(n.ctx, ast.Store))
         first_read = min([n.lineno for r, _, n in attr_roots if r == p] or [10 ** 9])
@@ -1409,8 +1620,17 @@ def translate_function(rel, fname, text, strings, translated):
                 and (fname, n.value.func.id) in EXTERNALS):
             callee = n.value.func.id
             tg = n.targets[0] if len(n.targets) == 1 else None
+            def tname(e):
+                if isinstance(e, ast.Name):
+                    return e.id
+                if isinstance(e, ast.Attribute) and isinstance(e.value, ast.Name) and e.value.id not in pynames \
+                        and e.value.id not in ctx.alias:
+                    return "%s.%s" % (e.value.id, e.attr)
+                return None
+            tnames = [tname(e) for e in tg.elts] if isinstance(tg, ast.Tuple) else [None]
+            real = [t for t in tnames if t != "_"]
             if not (isinstance(tg, ast.Tuple) and len(tg.elts) == EXTERNALS[(fname, callee)]
-                    and all(isinstance(e, ast.Name) for e in tg.elts) and len({e.id for e in tg.elts}) == len(tg.elts)
+                    and None not in tnames and len(set(real)) == len(real)
                     and not n.value.keywords and not any(isinstance(a, ast.Starred) for a in n.value.args)):
                 bad(ctx, n, "call of %s that is not `t1, ..., t%d = %s(positional arguments)`" % (callee, EXTERNALS[(fname, callee)], callee))
             imps = [(m.module or "", m.level) for m in ast.walk(mod) if isinstance(m, ast.ImportFrom)
@@ -1440,7 +1660,16 @@ def translate_function(rel, fname, text, strings, translated):
                 if cn in taken or cn in ctx.used or cn in RESERVED:
                     bad(ctx, n, "attribute parameter name clash %s" % cn)
                 ctx.used.add(cn)
-                k2 = KINDS.get((fname, key), "F")
+                k2 = KINDS.get((fname, key), callee_kinds.get(key, "F"))
+                if k2 == "X":
+                    ctx.attr_params[key] = (None, "X")
+                    continue
+                if k2.startswith("A") and k2[1:].isdigit() and 1 <= int(k2[1:]) <= MAX_ARRAY and key not in ctx.slots:
+                    ctx.attr_params[key] = (cn, k2)
+                    for i in range(int(k2[1:])):
+                        ctx.used.add("%s_%d" % (cn, i))
+                        coq_params.append(("%s_%d" % (cn, i), "F"))
+                    continue
                 if k2 in ("C1", "OL") and blk:
                     ctx.used.discard(cn)
                     ctx.attr_params[key] = (None, k2)
@@ -1474,7 +1703,11 @@ def translate_function(rel, fname, text, strings, translated):
     for callee, n in ext:
         m = {}
         for e in n.targets[0].elts:
-            if e.id in all_loads:
+            if isinstance(e, ast.Attribute):
+                cn = fresh(ctx, "%s_%s" % (e.value.id, e.attr))
+                m["%s.%s" % (e.value.id, e.attr)] = cn
+                coq_params.append((cn, "F"))
+            elif e.id in all_loads and e.id != "_":
                 if e.id in ctx.params:
                     bad(ctx, n, "result of %s stored into the parameter %s" % (callee, e.id))
                 cn = fresh(ctx, e.id)
@@ -1498,8 +1731,9 @@ def translate_function(rel, fname, text, strings, translated):
         ret_kinds = ("F",) * ret_kinds
     arity = len(ret_kinds)
     opt = any(l[0] in ("unb", "exc") for l in lv) or ctx.calls_opt
-    unb = sorted({(l[2], l[1]) for l in lv if l[0] == "unb"})
-    exc = sorted({(l[2], l[1]) for l in lv if l[0] == "exc"})
+    lvd = leaves(tree, [], True) if ctx.optjoin else lv
+    unb = sorted({(l[2], l[1]) for l in lvd if l[0] == "unb"})
+    exc = sorted({(l[2], l[1]) for l in lvd if l[0] == "exc"})
     TY = {"F": "F", "Z": "Z", "B": "bool", "S": "pystr", "L": "list F"}
     rt = " * ".join(TY[k] for k in ret_kinds)
     if opt:
@@ -1546,7 +1780,13 @@ def translate_function(rel, fname, text, strings, translated):
     lines += body
     lines[-1] += "."
     stats = {"nodes": sum(1 for _ in ast.walk(scope)), "term": size(tree), "option": opt, "params": len(coq_params), "sha256": sha}
-    info = {"pyparams": pyparams, "arity": arity, "opt": opt, "calls": ctx.calls, "trig": ctx.uses_trig}
+    info = {"pyparams": pyparams, "arity": arity, "opt": opt, "calls": ctx.calls, "trig": ctx.uses_trig,
+            "ret_kinds": ret_kinds,
+            "objattrs": {pn: [(key.split(".", 1)[1], k2) for key, (cn, k2) in ctx.attr_params.items()
+                              if key.split(".", 1)[0] == pn] for pn, kd in pyparams if kd == "O"},
+            "callable": not ext and not ctx.slots and not blk and not ctx.alias
+                        and all(k2 in ("F", "Z", "B", "S") or (k2.startswith("A") and k2[1:].isdigit())
+                                for cn, k2 in ctx.attr_params.values())}
     return "\n".join(lines), stats, info
 
 
@@ -1664,6 +1904,63 @@ def generate_procs(only=None):
     return out, {"functions": len(parts), "per_function": stats}
 
 
+HEADER_CROP = r"""(* GENERATED by harness/gen_kernels.py from the source text of the functions listed below.  DO NOT EDIT.
+   The two long loop-free crop processes; they call the definitions of gen/KernelsSrc.v and gen/ProcsSrc.v.
+   theories/proofs/CropSrcOK.v proves them equal to the hand models of Crop/Yield.v and Crop/Canopy.v.
+%s *)
+From Coq Require Import String.
+From AC Require Import Num.
+From AC.gen Require Import KernelsSrc ProcsSrc.
+
+Section CropSrc.
+  Context {F : Type} {N : NumOps F} {T : TrigSrc F}.
+  Local Open Scope num_scope.
+
+"""
+
+
+def generate_crop(only=None):
+    strings = []
+    translated = {}
+    # the callees: translated again (text discarded) so that their signatures are known
+    for lst in (FUNCTIONS, PROCS):
+        for rel, fname in lst:
+            try:
+                with open(os.path.join(REPO, rel)) as f:
+                    text = f.read()
+            except OSError as e:
+                raise TranslatorError("%s:0: unsupported source file (%s)" % (rel, e.strerror))
+            _, _, info = translate_function(rel, fname, text, strings, translated)
+            translated[fname] = info
+    known = list(strings)
+    parts, calls, stats, shas = [], [], {}, []
+    for rel, fname in CROPS:
+        if only is not None and fname not in only:
+            continue
+        try:
+            with open(os.path.join(REPO, rel)) as f:
+                text = f.read()
+        except OSError as e:
+            raise TranslatorError("%s:0: unsupported source file (%s)" % (rel, e.strerror))
+        body, st, info = translate_function(rel, fname, text, strings, translated)
+        if strings != known:
+            raise TranslatorError("%s:0: unsupported string constant %r (not a mode string of a callee)" % (rel, strings[-1]))
+        translated[fname] = info
+        parts.append(body)
+        stats[fname] = st
+        shas.append("     %s  %s :: %s" % (st["sha256"], rel, fname))
+        if info["calls"]:
+            calls.append("(* the external calls of %s: callee, source text of the arguments *)\n"
+                         "Definition %s_src_calls : list (string * list string) :=\n  [%s]." % (
+                             fname, fname, "; ".join("(%s, [%s])" % (coq_string(c), "; ".join(coq_string(a) for a in args))
+                                                     for c, args in info["calls"])))
+    out = HEADER_CROP % "\n".join(shas)
+    out += "\n\n".join(parts) + "\n\nEnd CropSrc.\n"
+    if calls:
+        out += "\n" + "\n\n".join(calls) + "\n"
+    return out, {"functions": len(parts), "per_function": stats}
+
+
 def main(argv=None):
     argv = list(sys.argv[1:] if argv is None else argv)
     out_dir = OUT
@@ -1684,8 +1981,8 @@ def main(argv=None):
             print("TRANSLATOR-ERROR: unknown argument %s" % a)
             sys.exit(2)
     try:
-        # nothing is written unless both files translated
-        results = [(OUT_FILE,) + generate(only), (PROCS_FILE,) + generate_procs(only)]
+        # nothing is written unless all files translated
+        results = [(OUT_FILE,) + generate(only), (PROCS_FILE,) + generate_procs(only), (CROP_FILE,) + generate_crop(only)]
         os.makedirs(out_dir, exist_ok=True)
         allstats = {}
         for fn, text, stats in results:
